@@ -5,6 +5,7 @@ import (
 	"sort"
 	"strconv"
 	"strings"
+	"time"
 
 	"github.com/andydunstall/piko/pkg/gossip"
 	"verifharness/internal/evid"
@@ -54,7 +55,14 @@ var sharedGossipMetrics = gossip.VNewMetrics()
 
 type kvInst struct {
 	owner *gossip.VClusterState
+	g     *gossip.Gossip // the public API in front of the owner state
 	stale *gossip.VClusterState
+	// old holds the delta produced for the stale observer at its previous
+	// synchronisation: it can be delivered again later (duplicate / delayed
+	// datagram), after newer state was applied
+	old  []gossip.VDelta // newest last, at most two
+	late bool
+	sys  *kvSys
 	ref   map[string]string
 	left  bool
 	keys  []string
@@ -63,25 +71,39 @@ type kvInst struct {
 
 type kvSys struct {
 	keys, vals []string
+	// late: the deltas of the stale observer's last two synchronisations can
+	// be delivered again (duplicated / delayed datagrams)
+	late bool
+	// afterLeave: upserts/deletes stay enabled after a leave; noLeave: no leave
+	afterLeave, noLeave bool
 }
 
 func (s *kvSys) New() mc.Instance[kvEvent] {
-	in := &kvInst{ref: map[string]string{}, keys: s.keys, vals: s.vals}
+	in := &kvInst{ref: map[string]string{}, keys: s.keys, vals: s.vals, late: s.late, sys: s}
 	in.owner = gossip.VNewClusterState("own", "10.0.0.1:7000", nopFD{}, sharedGossipMetrics, nopWatcher{})
 	in.stale = gossip.VNewClusterState("obs", "10.0.0.2:7000", nopFD{}, sharedGossipMetrics, nopWatcher{})
+	in.g = gossip.VNewGossip(&gossip.Config{BindAddr: "10.0.0.1:7000", AdvertiseAddr: "10.0.0.1:7000", Interval: time.Second, MaxPacketSize: 1400}, in.owner, nil, nil, discardConn{}, nil, sharedGossipMetrics)
 	return in
 }
 
 func (in *kvInst) Enabled() []kvEvent {
 	var evs []kvEvent
-	if !in.left {
+	// the property is stated for every sequence, so writes after a leave are
+	// part of the alphabet (the node keeps serving joins and gossip until it
+	// is closed)
+	if !in.left || in.sys.afterLeave {
 		for _, k := range in.keys {
 			for _, v := range in.vals {
 				evs = append(evs, kvEvent{Kind: "up", K: k, V: v})
 			}
 			evs = append(evs, kvEvent{Kind: "del", K: k})
 		}
+	}
+	if !in.left && !in.sys.noLeave {
 		evs = append(evs, kvEvent{Kind: "leave"})
+	}
+	for i := range in.old {
+		evs = append(evs, kvEvent{Kind: "late", K: strconv.Itoa(i)})
 	}
 	// compaction keeps running after leave (periodic task); production uses a
 	// threshold of 100 tombstones, here 1: it needs at least one tombstone.
@@ -148,19 +170,33 @@ func (in *kvInst) step(e kvEvent, check bool) []mc.Violation {
 		old, ok := in.ref[e.K]
 		effective = !ok || old != e.V
 		in.ref[e.K] = e.V
-		in.owner.UpsertLocal(e.K, e.V)
+		in.g.UpsertLocal(e.K, e.V)
 	case "del":
 		_, ok := in.ref[e.K]
 		effective = ok
 		delete(in.ref, e.K)
-		in.owner.DeleteLocal(e.K)
+		in.g.DeleteLocal(e.K)
 	case "compact":
 		in.owner.CompactLocal(1)
 	case "leave":
 		in.left = true
 		in.owner.LeaveLocal()
 	case "sync":
-		syncObserver(in.owner, in.stale)
+		d := in.owner.Delta(in.stale.Digest(), true)
+		in.stale.ApplyDelta(d)
+		if in.late {
+			in.old = append(in.old, d)
+			if len(in.old) > 2 {
+				in.old = in.old[1:]
+			}
+		}
+	case "late":
+		// the datagram of an earlier synchronisation arrives once more
+		i, _ := strconv.Atoi(e.K)
+		if i < len(in.old) {
+			in.stale.ApplyDelta(in.old[i])
+			in.old = append(in.old[:i:i], in.old[i+1:]...)
+		}
 	}
 	if !check {
 		return nil
@@ -221,7 +257,7 @@ func (in *kvInst) step(e kvEvent, check bool) []mc.Violation {
 		if mapStr(preLive) != mapStr(postLive) {
 			bad("leave-changed-live-keys", "leave changed the live state")
 		}
-	case "sync":
+	case "sync", "late":
 		if descNodeState(pre) != descNodeState(post) {
 			bad("sync-changed-owner", "synchronising an observer changed the owner state")
 		}
@@ -305,7 +341,34 @@ func (in *kvInst) Canon() string {
 		sb.WriteString("}")
 		return sb.String()
 	}
-	return desc(own) + "|" + desc(obs) + "|" + strconv.FormatBool(in.left)
+	// pending duplicates are part of the state; their versions are ranked
+	// together with the others
+	oldKey := ""
+	for _, od := range in.old {
+		oldKey += "["
+		for _, de := range od {
+			for _, e := range de.Entries {
+				oldKey += fmt.Sprintf("%s=%q@%d d=%v ", e.Key, e.Value, rankOf(rank, sorted, e.Version), e.Deleted)
+			}
+		}
+		oldKey += "]"
+	}
+	return desc(own) + "|" + desc(obs) + "|" + strconv.FormatBool(in.left) + "|" + oldKey
+}
+
+// rankOf ranks a version that may not itself be among the state's versions
+// (an entry of a pending duplicate that was overwritten since).
+func rankOf(rank map[uint64]int, sorted []uint64, v uint64) int {
+	if r, ok := rank[v]; ok {
+		return 2 * r
+	}
+	n := 0
+	for _, x := range sorted {
+		if x < v {
+			n++
+		}
+	}
+	return 2*n - 1
 }
 
 // Final: synchronise the stale observer and a brand-new one; both must end
@@ -335,6 +398,9 @@ type kvReplay struct {
 	Vals    []string  `json:"vals"`
 	History []kvEvent `json:"history"`
 	Pretty  []string  `json:"pretty"`
+	Late    bool      `json:"late_deltas"`
+	After   bool      `json:"writes_after_leave"`
+	NoLeave bool      `json:"no_leave"`
 }
 
 func init() {
@@ -342,9 +408,6 @@ func init() {
 		run := evid.NewRun("C17", "model_checking")
 		keys := []string{"a", "b"}
 		vals := []string{"", "1", "2"}
-		if run.Thorough() {
-			keys = []string{"a", "b", "c"}
-		}
 		sys := &kvSys{keys: keys, vals: vals}
 		opt := mc.Options{DeterminismEvery: 200, Known: func(v mc.Violation) bool { _, ok := evid.IsKnown(v.Property, v.Sig); return ok }}
 		if run.Thorough() {
@@ -352,13 +415,62 @@ func init() {
 		} else {
 			opt.Deadline = sec(120)
 		}
+		// second search: one key, and the deltas of the stale observer's last two
+		// synchronisations can arrive again later (duplicate / delayed datagrams)
+		// further searches over smaller alphabets, each adding one dimension:
+		// writes after a leave; late re-delivery of the stale observer's last deltas
+		extra := []*kvSys{
+			{keys: []string{"a"}, vals: []string{"", "1"}, afterLeave: true},
+			{keys: []string{"a"}, vals: []string{"1"}, late: true, noLeave: true},
+		}
+		if run.Thorough() {
+			extra = []*kvSys{
+				{keys: []string{"a", "b"}, vals: []string{"", "1"}, afterLeave: true},
+				{keys: []string{"a"}, vals: []string{"", "1"}, late: true, noLeave: true},
+				{keys: []string{"a", "b"}, vals: []string{"1"}, late: true, noLeave: true},
+			}
+		}
+		var xs []map[string]any
+		xStates, xTrans, xExh := 0, 0, true
+		for _, xsys := range extra {
+			xopt := opt
+			if xsys.late {
+				// pending duplicates keep old versions alive, the space is not
+				// finite: every history up to a depth bound instead
+				xopt.MaxDepth = 9
+				if run.Thorough() {
+					xopt.MaxDepth = 12
+				}
+			}
+			lres := mc.Explore[kvEvent](xsys, xopt)
+			if xsys.late && lres.CapHit != "" && lres.DepthCompleted == xopt.MaxDepth {
+				lres.Exhaustive = true // complete up to the stated depth bound
+			}
+			for _, f := range append(lres.Known, lres.Violations...) {
+				var p []string
+				for _, e := range f.History {
+					p = append(p, e.String())
+				}
+				run.Violation("C17", f.V.Sig, f.V.Msg, kvReplay{"E3-C17", xsys.keys, xsys.vals, f.History, p, xsys.late, xsys.afterLeave, xsys.noLeave})
+			}
+			fmt.Printf("  C17 (keys %v values %q late=%v writes-after-leave=%v): states=%d transitions=%d depth=%d exhaustive=%v %s\n", xsys.keys, xsys.vals, xsys.late, xsys.afterLeave, lres.States, lres.Transitions, lres.DepthCompleted, lres.Exhaustive, lres.CapHit)
+			xs = append(xs, map[string]any{"keys": xsys.keys, "values": xsys.vals, "late_deltas": xsys.late, "writes_after_leave": xsys.afterLeave, "states": lres.States, "transitions": lres.Transitions, "exhaustive": lres.Exhaustive, "cap_hit": lres.CapHit})
+			xStates += lres.States
+			xTrans += lres.Transitions
+			xExh = xExh && lres.Exhaustive
+		}
+		run.Set("additional_searches", xs)
+		run.Assume("the searches with late re-delivery are complete up to their depth bound (9 quick / 12 thorough), the others are unbounded over a finite canonical state space")
 		res := mc.Explore[kvEvent](sys, opt)
+		res.States += xStates
+		res.Transitions += xTrans
+		res.Exhaustive = res.Exhaustive && xExh
 		for _, f := range append(res.Known, res.Violations...) {
 			var p []string
 			for _, e := range f.History {
 				p = append(p, e.String())
 			}
-			run.Violation("C17", f.V.Sig, f.V.Msg, kvReplay{"E3-C17", keys, vals, f.History, p})
+			run.Violation("C17", f.V.Sig, f.V.Msg, kvReplay{"E3-C17", keys, vals, f.History, p, false, false, false})
 		}
 		for _, s := range res.Samples {
 			var p []string
@@ -387,7 +499,7 @@ func init() {
 		readJSON(path, &doc)
 		var outs [2]string
 		for k := 0; k < 2; k++ {
-			in := (&kvSys{keys: doc.Replay.Keys, vals: doc.Replay.Vals}).New().(*kvInst)
+			in := (&kvSys{keys: doc.Replay.Keys, vals: doc.Replay.Vals, late: doc.Replay.Late, afterLeave: doc.Replay.After, noLeave: doc.Replay.NoLeave}).New().(*kvInst)
 			out := ""
 			for i, e := range doc.Replay.History {
 				vs := in.Apply(e)
